@@ -94,6 +94,31 @@ pub fn parse_request(raw: &[u8]) -> Request {
         }
     }
     let body = &raw[hend + 4..];
+    let chunked = r.headers.iter().any(|(n, v)| n.eq_ignore_ascii_case("transfer-encoding") && String::from_utf8_lossy(v).to_ascii_lowercase().contains("chunked"));
+    if chunked {
+        // a client is free to send its body chunked: decode it
+        let mut out = vec![];
+        let mut rest = body;
+        loop {
+            let Some(eol) = find(rest, b"\r\n") else { return r };
+            let size_txt = String::from_utf8_lossy(&rest[..eol]).to_string();
+            let Ok(size) = usize::from_str_radix(size_txt.split(';').next().unwrap_or("").trim(), 16) else { return r };
+            rest = &rest[eol + 2..];
+            if size == 0 {
+                // trailers until an empty line
+                if find(rest, b"\r\n").map(|p| p == 0).unwrap_or(false) || find(rest, b"\r\n\r\n").is_some() {
+                    r.body = out;
+                    r.complete = true;
+                }
+                return r;
+            }
+            if rest.len() < size + 2 {
+                return r;
+            }
+            out.extend_from_slice(&rest[..size]);
+            rest = &rest[size + 2..];
+        }
+    }
     if body.len() >= content_length {
         r.body = body[..content_length].to_vec();
         r.complete = true;
